@@ -167,6 +167,46 @@ pub fn run_tape(tape: &[u32]) -> (Case, SeqOutcome) {
 pub struct CountingAlloc;
 pub static LIVE_BYTES: std::sync::atomic::AtomicIsize = std::sync::atomic::AtomicIsize::new(0);
 
+// Poisoning quarantine (mem engine only, switched on by `POISON`): a freed block is filled with
+// 0xDD and parked in a ring of `QN` blocks before it really goes back to the system allocator, so
+// a read through a dangling pointer sees the pattern (salsa then panics on an impossible tag or
+// returns a value the reference rejects) instead of plausible old contents, and a write through a
+// dangling pointer is noticed when the block leaves the ring (`WRITES_AFTER_FREE`).
+pub static POISON: std::sync::atomic::AtomicBool = std::sync::atomic::AtomicBool::new(false);
+pub static WRITES_AFTER_FREE: std::sync::atomic::AtomicUsize = std::sync::atomic::AtomicUsize::new(0);
+const QN: usize = 2048;
+const QMAX: usize = 1 << 16;
+static QLOCK: std::sync::atomic::AtomicBool = std::sync::atomic::AtomicBool::new(false);
+static mut QRING: [(usize, usize, usize); QN] = [(0, 0, 0); QN];
+static mut QPOS: usize = 0;
+
+unsafe fn quarantine(p: *mut u8, l: std::alloc::Layout) {
+    use std::alloc::GlobalAlloc;
+    use std::sync::atomic::Ordering::*;
+    unsafe { std::ptr::write_bytes(p, 0xDD, l.size()) };
+    while QLOCK.compare_exchange_weak(false, true, Acquire, Relaxed).is_err() {
+        std::hint::spin_loop();
+    }
+    // SAFETY: guarded by QLOCK
+    let old = unsafe {
+        let ring = &mut *std::ptr::addr_of_mut!(QRING);
+        let pos = &mut *std::ptr::addr_of_mut!(QPOS);
+        let old = ring[*pos];
+        ring[*pos] = (p as usize, l.size(), l.align());
+        *pos = (*pos + 1) % QN;
+        old
+    };
+    QLOCK.store(false, Release);
+    if old.0 != 0 {
+        let q = old.0 as *mut u8;
+        let intact = unsafe { std::slice::from_raw_parts(q, old.1) }.iter().all(|b| *b == 0xDD);
+        if !intact {
+            WRITES_AFTER_FREE.fetch_add(1, Relaxed);
+        }
+        unsafe { std::alloc::System.dealloc(q, std::alloc::Layout::from_size_align_unchecked(old.1, old.2)) }
+    }
+}
+
 unsafe impl std::alloc::GlobalAlloc for CountingAlloc {
     unsafe fn alloc(&self, l: std::alloc::Layout) -> *mut u8 {
         let p = unsafe { std::alloc::System.alloc(l) };
@@ -177,7 +217,11 @@ unsafe impl std::alloc::GlobalAlloc for CountingAlloc {
     }
     unsafe fn dealloc(&self, p: *mut u8, l: std::alloc::Layout) {
         LIVE_BYTES.fetch_sub(l.size() as isize, std::sync::atomic::Ordering::Relaxed);
-        unsafe { std::alloc::System.dealloc(p, l) }
+        if POISON.load(std::sync::atomic::Ordering::Relaxed) && l.size() > 0 && l.size() <= QMAX {
+            unsafe { quarantine(p, l) }
+        } else {
+            unsafe { std::alloc::System.dealloc(p, l) }
+        }
     }
     unsafe fn realloc(&self, p: *mut u8, l: std::alloc::Layout, new_size: usize) -> *mut u8 {
         let q = unsafe { std::alloc::System.realloc(p, l, new_size) };
@@ -193,6 +237,8 @@ pub fn live_bytes() -> isize {
 }
 
 fn run_mem_case(_spec: &props::PropSpec, case: &Case) -> SeqOutcome {
+    POISON.store(true, std::sync::atomic::Ordering::SeqCst);
+    let waf0 = WRITES_AFTER_FREE.load(std::sync::atomic::Ordering::SeqCst);
     let mut first = run_case(case);
     if !first.violations.is_empty() {
         return first;
@@ -209,6 +255,14 @@ fn run_mem_case(_spec: &props::PropSpec, case: &Case) -> SeqOutcome {
             rule: "heap-grows-per-database".into(),
             step: 0,
             detail: format!("live heap bytes after dropping the database: {after2} after the 2nd run, {after3} after the 3rd run of the same history ({:+} bytes per run)", after3 - after2),
+        });
+    }
+    let waf = WRITES_AFTER_FREE.load(std::sync::atomic::Ordering::SeqCst);
+    if waf != waf0 {
+        first.violations.push(Violation {
+            rule: "write-after-free".into(),
+            step: 0,
+            detail: format!("{} freed block(s) were modified while parked in the poisoning quarantine during or shortly before this case", waf - waf0),
         });
     }
     first.labels.push("leak-metamorphic-checked");
